@@ -74,16 +74,33 @@ func (args *AtDateAndTimeArgs) AtTime(now gotime.Time, config app.Config) (klog.
 	if today.IsEqualTo(date) {
 		return time, nil
 	} else if today.PlusDays(-1).IsEqualTo(date) {
-		shiftedTime, _ := time.Plus(klog.NewDuration(24, 0))
+		shiftedTime, err := time.Plus(klog.NewDuration(24, 0))
+		if err != nil {
+			return nil, unrepresentableTimeError()
+		}
 		return shiftedTime, nil
 	} else if today.PlusDays(1).IsEqualTo(date) {
-		shiftedTime, _ := time.Plus(klog.NewDuration(-24, 0))
+		shiftedTime, err := time.Plus(klog.NewDuration(-24, 0))
+		if err != nil {
+			return nil, unrepresentableTimeError()
+		}
 		return shiftedTime, nil
 	}
 	return nil, app.NewErrorWithCode(
 		app.LOGICAL_ERROR,
 		"Missing time parameter",
 		"Please specify a time value for dates in the past",
+		nil,
+	)
+}
+
+// unrepresentableTimeError is returned when the (rounded) current time cannot be
+// expressed relative to the record’s date, e.g. 24:00 shifted to the next day.
+func unrepresentableTimeError() app.Error {
+	return app.NewErrorWithCode(
+		app.LOGICAL_ERROR,
+		"Cannot represent time",
+		"The current time cannot be expressed relative to the date of the record. Please specify a time value explicitly",
 		nil,
 	)
 }
